@@ -1,13 +1,13 @@
 (* Property C05 — workload shape: every element called once, PIC runs the chosen case
    Statements only; every proof is `exact` of a lemma proved elsewhere.
-   The FULL statement (all variants, accepted configurations, decision scripts,
-   layouts and initial states) is kept visible as a Definition `..._statement`;
-   what is machine-checked today is named `..._partial` (DESIGN 9, fall-back
-   rule): theorems about every component the whole-image statement is made of
-   (regenerated fragments by computation, stub execution on the reference
-   machine for ALL offsets / addresses / states, arithmetic of the generator for
-   ALL sizes), while the composition over whole images is tied by the
-   byte-exact generator correspondence and judged on the reference machine. *)
+   Theorems without suffix are proved at the strength stated in their comment
+   (Layer A: every accepted configuration and decision script; Layer B:
+   machine-level method contracts and whole-image theorems, DESIGN 10.3).
+   `..._partial` marks a theorem that covers part of a clause (its comment says
+   what is missing); a `Definition ..._statement` keeps a clause visible that is
+   stated but not proved.  Clauses not proved are decided on every run by the
+   judges on implementation images (byte-exact generator correspondence +
+   extracted reference machine). *)
 From Coq Require Import ZArith List String Bool.
 From Gigue Require Import Types Bits Isa Enc GenTables Builder BuilderTies Samplers Generator Machine MachineLemmas
   SplitProofs FragProofs GenLemmas ImageSem CtorSpec C12Defs C12Proofs GenWF GenWFProps SliceLemmas GenWF2 GenWF3 GenWF4 GenWF2Props BodyExec BodyBridge GenWF5 FrameExec CodeMem SwitchExec GenWF7 Witness.
